@@ -1,6 +1,6 @@
 (* C01 — Builder calls never change any object that already exists.
    Statement, closing [exact]s and Print Assumptions only; proofs live in lemmas/HeapLemmas.v. *)
-From PV Require Import Base Heap lemmas.HeapLemmas lemmas.HeapExpected gen.C01Table.
+From PV Require Import Base Heap lemmas.HeapLemmas lemmas.HeapMutable lemmas.HeapExpected gen.C01Table.
 From Coq Require Import Lia.
 Close Scope string_scope. Close Scope list_scope. Open Scope list_scope. Open Scope string_scope.
 
@@ -90,6 +90,32 @@ Proof.
 Qed.
 Print Assumptions C01_expected_fragment.
 
+(* --- third sentence (immutable=False), partial: for every chain of calls whose fired effects act on the receiver
+       only and that return it (no argument write, no wrapper), on an object none of whose attributes share a cell:
+       run in place (the decorator never copies) the chain returns the one object, and that object ends up holding,
+       attribute by attribute, exactly what the last copy holds when the same chain runs through copies.
+       (One level deep: class, attribute names in order, container flag and items of every attribute.) --- *)
+Definition C01_mutable_statement : Prop :=
+  forall (chain : list call) w o ob c wm om wi oi,
+    wfb w = true -> nth_error (objs w) o = Some ob -> find_class class_table (ocls ob) = Some c ->
+    unaliased w o = true -> forallb (call_self_only c) chain = true ->
+    run_chain class_table false w o chain = Some (wm, om) -> run_chain class_table true w o chain = Some (wi, oi) ->
+    om = o /\ view wm om = view wi oi.
+
+Theorem C01_mutable_mode_partial : C01_mutable_statement.
+Proof.
+  intros chain w o ob c wm om wi oi W. apply wfb_wf in W. now apply mutable_same_statement.
+Qed.
+Print Assumptions C01_mutable_mode_partial.
+
+Definition mutable_chain : list call :=
+  [ ("select", [], [(true, mkCell true [IAtom "a"]); (false, mkCell true []); (true, mkCell true [IAtom "a"]); (false, mkCell false [])]);
+    ("from_", [], [(true, mkCell true [IAtom "t"]); (false, mkCell false []); (false, mkCell false [])]);
+    ("select", [], [(false, mkCell true []); (false, mkCell true []); (true, mkCell true [IAtom "a"; IAtom "b"]); (false, mkCell false [])]) ].
+Definition q_world : world :=
+  match new_obj empty_world "queries.QueryBuilder" (("_selects", mkCell true []) :: ("_select_star_tables", mkCell true []) :: q_attrs)
+  with Some (w, _) => w | None => empty_world end.
+
 (* --- non-vacuity: a branching history over safe pairs executes (no step is stuck), is covered by the fragment
        theorem, and really shares / un-shares cells the way copy.copy + __copy__ do --- *)
 Definition case_attrs : list (attr * cell) :=
@@ -106,5 +132,15 @@ Definition branching_history : list step :=
 Example C01_nonvacuous :
   length (run class_table empty_world branching_history) = 6
   /\ hist_uses class_table expected_safe empty_world branching_history = true
-  /\ hist_quiet class_table empty_world refuting_history = false.
-Proof. vm_compute. repeat split. Qed.
+  /\ hist_quiet class_table empty_world refuting_history = false
+  (* the mutable-mode theorem applies to a real chain: both runs succeed, hypotheses hold, results differ as objects *)
+  /\ (exists wm wi oi, run_chain class_table false q_world 0 mutable_chain = Some (wm, 0)
+        /\ run_chain class_table true q_world 0 mutable_chain = Some (wi, oi) /\ oi = 3
+        /\ view wm 0 = view wi 3 /\ view wm 0 <> view q_world 0)
+  /\ unaliased q_world 0 = true
+  /\ match find_class class_table "queries.QueryBuilder" with
+     | Some c => forallb (call_self_only c) mutable_chain | None => false end = true.
+Proof.
+  vm_compute. repeat split.
+  do 3 eexists. repeat split; try reflexivity. discriminate.
+Qed.
